@@ -25,8 +25,8 @@ ENTRIES = [
     B('ignore-length-overrides-chunked', "        if self._ignore_length and read_strategy == 'length':", "        if self._ignore_length:", 'C08-D1'),
     B('chunked-pattern-prefix', "            r'chunked($|;)',", "            r'chunked',", 'C08-D1'),
     B('chunked-search', "        chunked_match = re.match(\n", "        chunked_match = re.search(\n", 'C08-D1'),
-    B('chunked-test-on-content-encoding', "            response.fields.get('Transfer-Encoding', '')\n        )",
-      "            response.fields.get('Content-Encoding', '')\n        )", 'C08-D1'),
+    B('chunked-test-on-content-encoding', "            response.fields.get('Transfer-Encoding', ''),\n            re.IGNORECASE",
+      "            response.fields.get('Content-Encoding', ''),\n            re.IGNORECASE", 'C08-D1'),
     B('length-read-until-close', "        elif read_strategy == 'length':\n            yield from self._read_body_by_length(response, file)",
       "        elif read_strategy == 'length':\n            yield from self._read_body_until_close(response, file)", 'C08-D1'),
     B('field-names-case-sensitive', "        normalized_name = normalize_name(name, self._normalize_overrides)\n        self._map[normalized_name].append(value)",
